@@ -47,7 +47,7 @@ def cell_list(tier):
 
 
 def sizes_R(tier):
-    return ((32, 128), 40) if tier == "quick" else ((64, 256), 160)
+    return ((32, 128), 40) if tier == "quick" else ((64, 256), 80)
 
 
 def cases(seed, tier):
